@@ -471,6 +471,13 @@ func crashEdge(sc *Scenario, ed *EdgeCtx, add func([]string, string, ...any), ad
 	br := w.RunBlock(time.Millisecond, nil)
 	wantH1 := fmt.Sprintf("%X", br.AppHash)
 
+	// ---- state kept outside the database: a node that has been running for a while (and has executed
+	// other transactions since it started, failing ones included) must answer this block exactly like
+	// the node above, which was started from the same database content a moment ago. The long-running
+	// twin is polluted deterministically: from the parent state it executes every letter of the
+	// alphabet once (restoring the database in place after each), then the block under test.
+	points += hiddenState(sc, ed, d0, at, raw, refTx, wantH, addD)
+
 	// stop points before Commit (after BeginBlock, after the k-th DeliverTx, after EndBlock) leave the
 	// database untouched (checked above), so they all restart from d0; prefix k of the commit log
 	// models a stop inside Commit after k write batches
@@ -561,6 +568,73 @@ func crashEdge(sc *Scenario, ed *EdgeCtx, add func([]string, string, ...any), ad
 		}
 	}
 	return points
+}
+
+func hiddenState(sc *Scenario, ed *EdgeCtx, d0 map[string][]byte, at time.Time, raw [][]byte, refTx []c01Tx, wantH string, addD func([]string, Disc)) int {
+	open := func() *Exec {
+		w, _, err := openOn(d0)
+		if err != nil {
+			return nil
+		}
+		w.Spec = sc.Genesis
+		w.Height, w.Time = ed.Parent.Height, ed.Parent.Time
+		for _, n := range sc.tracked() {
+			if !strings.HasPrefix(n, "mod:") {
+				w.Acct(n)
+			}
+		}
+		return &Exec{W: w, M: ed.M.Clone(), Aux: cloneAux(ed.Aux), Tracked: sc.tracked()}
+	}
+	e := open()
+	if e == nil {
+		return 0
+	}
+	snap := e.W.Snapshot()
+	ran := 0
+	for i := range sc.Actions {
+		a := &sc.Actions[i]
+		if a.Gov != nil || a.PrefixOnly || (a.Enabled != nil && !a.Enabled(e.M, e.Aux)) {
+			continue
+		}
+		e.Run(a, false)
+		ran++
+		if e.W.Poisoned {
+			if e = open(); e == nil {
+				return 0
+			}
+			continue
+		}
+		e.W.Restore(snap)
+		e.M, e.Aux = ed.M.Clone(), cloneAux(ed.Aux)
+	}
+	var res mc.BlockRes
+	func() {
+		defer func() {
+			if p := recover(); p != nil {
+				res.Panic = fmt.Sprint(p)
+			}
+		}()
+		res = e.W.RunBlock(at.Sub(ed.Parent.Time), raw)
+	}()
+	if res.Panic != "" {
+		addD(ed.Path, Disc{Kind: "determinism.hidden_state", Detail: fmt.Sprintf("a node that executed %d other blocks (discarded again) since its start panics on this block: %s; a freshly started node does not", ran, firstLine(res.Panic)), Sig: map[string]string{"panic": "true"}})
+		return 1
+	}
+	if g := fmt.Sprintf("%X", res.AppHash); g != wantH {
+		addD(ed.Path, Disc{Kind: "determinism.hidden_state", Detail: fmt.Sprintf("same database content, same block: a node that executed %d other blocks (all discarded by restoring the database) since its start reaches app hash %s, a freshly started node %s: the application keeps state outside its database", ran, g, wantH),
+			Sig: map[string]string{"only_gas_used_differs": "false", "failed_before_ante_handler": "false"}})
+		return 1
+	}
+	for i, r := range res.Txs {
+		got := c01Tx{r.Code, fmt.Sprintf("%x", r.Data), r.GasWanted, r.GasUsed}
+		if i < len(refTx) && got != refTx[i] {
+			onlyGas := got.Code == refTx[i].Code && got.Data == refTx[i].Data && got.GasWanted == refTx[i].GasWanted
+			addD(ed.Path, Disc{Kind: "determinism.hidden_state", Detail: fmt.Sprintf("same database content, same block: on a node that executed %d other blocks (all discarded) since its start tx %d returns %+v, on a freshly started node %+v", ran, i, got, refTx[i]),
+				Sig: map[string]string{"only_gas_used_differs": fmt.Sprint(onlyGas), "failed_before_ante_handler": fmt.Sprint(got.Code != 0 && got.GasWanted == 0)}})
+			break
+		}
+	}
+	return 1
 }
 
 func init() {
